@@ -1,4 +1,4 @@
 From Coq Require Import Extraction ExtrOcamlBasic.
 From MakoV Require Import Lib.Str Gen.Unicode Model.Paths8.
 Extraction Language OCaml.
-Extraction "../ocaml/c08/model.ml" N.of_nat module_id register_all answers.
+Extraction "../ocaml/c08/model.ml" N.of_nat module_id register_all answers emitted.
